@@ -174,6 +174,28 @@ def run(ctx):
                re.search(r"rows=(\d+) cols=(\d+) blowup=(\d+)", k).groups() for k in ref if k.startswith("rowmatrix.lde"))),
            "proof_cases": sorted(set(k.split(" ")[0] for k in ref if k.startswith("proof."))), "reference_wall_s": round(dt, 1)}
 
+    # ------------------------------------------------------------------ cheap kernels under EVERY pool size 1..64
+    rc, out, _ = vcheck.sh([ser, "kernels", str(ctx.seed)], timeout=600)
+    kref, _, _ = _parse(out)
+    ctx.ob("kernels:reference-run", rc == 0 and len(kref) > 50, f"rc={rc} lines={len(kref)}")
+    kbad = 0
+    for T in range(1, 65):
+        rc, out, _ = vcheck.sh([conc, "kernels", str(ctx.seed)], timeout=600, env={"RAYON_NUM_THREADS": str(T)})
+        got, _, _ = _parse(out)
+        diff = [k for k in sorted(kref) if got.get(k) != kref[k]]
+        ctx.evaluations += len(got)
+        for k in got:
+            ctx.distinct.add(f"kern|{k}|T={T}")
+        if rc != 0 or diff:
+            kbad += 1
+            for k in diff[:3]:
+                ctx.add_failure({"what": "kernel result differs from the single-threaded build", "input": f"{k} RAYON_NUM_THREADS={T} seed={ctx.seed}",
+                                 "expected": kref[k], "actual": got.get(k, "missing"),
+                                 "replay": f"diff <({ser} kernels {ctx.seed}) <(RAYON_NUM_THREADS={T} {conc} kernels {ctx.seed})"})
+            if rc != 0 and not diff:
+                ctx.add_failure({"what": "kernel run failed", "input": f"RAYON_NUM_THREADS={T}", "expected": "exit 0", "actual": out[-300:]})
+    ctx.ob("kernels:bit-identical-for-every-pool-size-1..64", kbad == 0, f"{kbad} pool sizes differ")
+
     # ------------------------------------------------------------------ concurrent runs
     nonce_diffs, walls = 0, {}
     for T in Ts:
